@@ -1,4 +1,5 @@
 import Modbus.Driver.JudgePacket
+import Modbus.Driver.Regs
 import Std.Data.HashSet
 import Std.Data.HashMap
 /-
@@ -27,7 +28,10 @@ def dispatch (prop : String) (ts : List String) : Option Family :=
       | .parse e _ _ => "parse:" ++ e
       | _ => ts.headD "?"
     some { modelOut := op.modelOut, kf := op.kf prop, expect := op.judge prop, kind }
-  | none => none
+  | none =>
+    match parseRegsOp ts with
+    | some op => some { modelOut := op.modelOut, kf := none, expect := op.judge prop, kind := "regs" }
+    | none => none
 
 structure St where
   lines : Nat := 0
